@@ -123,7 +123,7 @@ pub const NPARSE: usize = 4;
 pub struct ParseScript {
     /// false: the text is not valid JSON / not an object -> Err
     pub ok: bool,
-    /// which serde_json error category the failure has: 0 not Eof, 1 Eof (truncated document)
+    /// which serde_json error category the failure has: 0 Io, 1 Eof (truncated document), 2 Data (wrong shape)
     pub err_kind: u8,
     pub obj: MapScript,
 }
@@ -160,6 +160,7 @@ pub fn from_slice<'a, T: Deserialize<'a>>(_v: &'a [u8]) -> serde_json::Result<T>
         unsafe { PARSE_FAILED = true };
         return Err(match sc.err_kind {
             1 => nde::json_eof_err(),
+            2 => nde::json_data_err(),
             _ => nde::json_err(),
         });
     }
